@@ -54,7 +54,7 @@ fn check_cert(what: &str, g: Group, f: &Tt, rep: &Tt, perm: &[u8], mask: u32) ->
     Ok(img != *f)
 }
 
-fn run(c: &Case) -> Verdict {
+pub fn run(c: &Case) -> Verdict {
     let x = match load(c.fam, &c.f) {
         Ok(x) => x,
         Err(_) => return pass(false, vec!["skipped:unloadable".into()]),
